@@ -197,6 +197,23 @@ def h_dummy_names(E, name_kind, restriction):
     return 'graded'
 
 
+EMPTY = [(1, '2', '2'), (2, '3', '3'), (1, '4', '4'), (2, '-1', '-1'), (1, '0', '0'), (2, '2+1', '3'), (1, '-2', '-2')]
+
+
+def h_empty_range(E, idx):
+    """limits between which no integer of the configured parity lies: the sum is empty, i.e. 0 - graded like any other value, no error"""
+    even_odd, lo, hi = EMPTY[idx]
+    g, SX, SD = _grader(E, even_odd=even_odd, tolerance=0.001,
+                        answers={'lower': lo, 'upper': hi, 'summand': 'x*n+n^2', 'summation_variable': 'n'})
+    r = g(None, [hi, lo, 'x*n + 5', 'n'])
+    s_ok, c_ok = wellformed(r)
+    E.check('wellformed', sand(s_ok, c_ok))
+    E.check('empty-sum-is-zero-and-graded', r['ok'] is True)
+    r2 = g(None, ['1', '5', 'x*n', 'n'])
+    E.check('nonempty-wrong-sum-rejected', r2['ok'] is False)
+    return 'ok'
+
+
 LIMITS = {'2': 2, '-3': -3, '5/2': 2.5, '-1.5': -1.5, '1/2': 0.5, 'infty': INF, '-infty': -INF, '4.0': 4, '2+x-x': 2, '1/2+x-x': 0.5}
 
 
@@ -260,6 +277,8 @@ def harnesses(tier):
         for wrong in (None, 'lower', 'summand'):
             add(h_positions, 'positions', dict(subset=''.join('1' if b else '0' for b in subset), order=sum(subset), wrong=wrong), 'subset of student-entered fields')
             hs[-1].params = (subset, sum(subset), wrong)
+    for i in range(len(EMPTY)):
+        add(h_empty_range, 'empty_range', dict(i=i), 'even_odd=%d limits %s..%s' % EMPTY[i])
     for nk in DUMMY_NAMES:
         for rk in RESTRICTIONS:
             add(h_dummy_names, 'dummy_names', dict(name=nk, restriction=rk), 'symbolic samples')
